@@ -20,7 +20,7 @@ pub fn generate(prop: &str, r: &mut Rng, id: usize, thorough: bool) -> Group {
         "C05" => gen_c05(r, id, thorough),
         "C06" => gen_c06(r, id),
         "C07" => gen_c07(r, id),
-        "C08" => gen_c08(r, id),
+        "C08" => gen_c08(r, id, thorough),
         "C09" => gen_c09(r, id),
         "C10" => gen_c10(r, id),
         "C11" => gen_c11(r, id),
@@ -266,12 +266,44 @@ fn gen_c05_regex_grid(k: usize) -> Group {
     g
 }
 
-pub fn gen_c05(r: &mut Rng, id: usize, _thorough: bool) -> Group {
+/// thorough only: EVERY byte string of length 0..=4 over the 24 JSON-significant bytes, as standard input
+const C05_ALPHABET: &[u8] = b"{}[]:,\"\\-+.eE01 \ntfnu/\xc3\xff";
+pub fn c05_exhaustive_size() -> usize {
+    let a = C05_ALPHABET.len();
+    1 + a + a * a + a * a * a + a * a * a * a
+}
+fn gen_c05_exhaustive(mut k: usize) -> Group {
+    let a = C05_ALPHABET.len();
+    let mut len = 0;
+    let mut block = 1;
+    while k >= block {
+        k -= block;
+        block *= a;
+        len += 1;
+    }
+    let mut bytes = vec![0u8; len];
+    for i in (0..len).rev() {
+        bytes[i] = C05_ALPHABET[k % a];
+        k /= a;
+    }
+    let mut c = case(format!("C05-x{}", crate::case::hex(&bytes)));
+    c.spec.on_error = Some(["ignore", "panic", "stderr", "stdout"][len % 4].to_string());
+    c.sources.push(stdin_src(bytes));
+    let mut g = Group::new(vec![c]);
+    g.labels.push("kind:exhaustive-bytes".into());
+    g
+}
+
+pub fn gen_c05(r: &mut Rng, id: usize, thorough: bool) -> Group {
     if id < c05_grid_size() {
         return gen_c05_grid(id);
     }
     if id < c05_grid_size() + c05_regex_grid_size() {
         return gen_c05_regex_grid(id - c05_grid_size());
+    }
+    let fixed = c05_grid_size() + c05_regex_grid_size();
+    if thorough && id < fixed + c05_exhaustive_size() {
+        return gen_c05_exhaustive(id - fixed);
     }
     if r.chance(50) {
         return crate::oracle_b::gen_c05_extra(r, id);
@@ -509,7 +541,54 @@ pub fn gen_c07(r: &mut Rng, id: usize) -> Group {
 
 // ---------------------------------------------------------------------------------- C08 / C09 / C10
 
-pub fn gen_c08(r: &mut Rng, id: usize) -> Group {
+/// thorough only: EVERY stream of 0..=4 records over 3 keys x S in 0..=3 x T in {absent, 0..=3} x
+/// {no sort, sort asc, sort desc} x {none, group, merge}
+pub fn c08_exhaustive_size() -> usize {
+    (1 + 3 + 9 + 27 + 81) * 4 * 5 * 3 * 3
+}
+fn gen_c08_exhaustive(mut k: usize) -> Group {
+    let grouping = k % 3; k /= 3;
+    let sorting = k % 3; k /= 3;
+    let t = k % 5; k /= 5;
+    let s_ = k % 4; k /= 4;
+    let mut len = 0;
+    let mut block = 1;
+    while k >= block { k -= block; block *= 3; len += 1; }
+    let mut text = String::new();
+    let mut kk = k;
+    let mut keys = vec![0usize; len];
+    for i in (0..len).rev() { keys[i] = kk % 3; kk /= 3; }
+    for (i, key) in keys.iter().enumerate() {
+        text.push_str(&format!("{{\"id\":{i},\"k\":{},\"g\":\"{}\"}}\n", ["1", "2", "null"][*key], ["a", "b", "a"][*key]));
+    }
+    let mut c = case(format!("C08-x{k}-{s_}-{t}-{sorting}-{grouping}-{len}"));
+    c.spec.skip = s_ as u64;
+    c.spec.take = if t == 0 { None } else { Some((t - 1) as u64) };
+    match sorting { 1 => c.spec.sorts.push(".k".into()), 2 => c.spec.sorts.push(".k DESC".into()), _ => {} }
+    match grouping { 1 => c.spec.group = Some(Some(".g".into())), 2 => c.spec.group = Some(None), _ => {} }
+    if c.spec.skip == 0 && c.spec.take.is_none() { c.spec.take = Some(2); }
+    c.sources.push(stdin_src(text.into_bytes()));
+    let mut twin = c.clone();
+    twin.id = format!("{}-unlimited", twin.id);
+    twin.spec.skip = 0;
+    twin.spec.take = None;
+    let mut cases = vec![c.clone(), twin];
+    if c.spec.group.is_some() {
+        let mut t2 = c.clone();
+        t2.id = format!("{}-ungrouped", t2.id);
+        t2.spec.group = None;
+        cases.push(t2);
+    }
+    let mut g = Group::new(cases);
+    g.nontrivial = len >= 2;
+    g.labels.push("kind:exhaustive-small".into());
+    g
+}
+
+pub fn gen_c08(r: &mut Rng, id: usize, thorough: bool) -> Group {
+    if thorough && id < c08_exhaustive_size() {
+        return gen_c08_exhaustive(id);
+    }
     let p = PipeOpts { force_limit: true, text: false, ..Default::default() };
     let mut g = gen_pipeline(r, id, "C08", &p, &key_universe_small(), 40);
     // metamorphic twin: the same run without --skip/--take
